@@ -112,6 +112,6 @@ SUBS = [
 
 MANIFEST = {
     "technique": "exhaustive enumeration of all small feature-tree shapes + Hypothesis random models; oracle = independent brute-force configuration enumerator",
-    "level_text": "Exact for every tree shape up to 5 features (quick) / 7 features (thorough); random models up to 12 features beyond that. Differential against an independent brute-force enumerator.",
+    "level_text": "Exact for every tree shape up to 5 features (quick) / 7 features (thorough); random models up to 12 features beyond that. Differential against an independent brute-force enumerator. Also: models with groups of up to 300 leaves and 33-70 single relations against an exact big-integer counter (cross-checked against brute force on every small case), constraint-list models, and in-place edit histories. A sample of every sub-check additionally runs in a `python -OO` child with the root logger at DEBUG.",
     "level_note": "Trusted: vf/semantics.py (tree rules and propositional semantics), vf/shapes.py enumeration (counts cross-checked: 1,3,21,146,1143,9396,81192).",
 }
